@@ -28,9 +28,12 @@ type Env struct {
 	SetExtend     func(string, json.RawMessage)
 	SetCMTLS      func(v2.TLSConfig)
 	Restart       func() ([]byte, error) // configmanager.InheritMosnconfig
-	Live          func() []string        // Deep(&conf), nil if not available
+	Live          func() []byte          // DeepBytes(&conf), nil if not available
 	Endpoints     func(n Names) []Endpoint
-	Do            func(e Endpoint) (status int, body []byte, panicked string)
+	// SetTransferHook registers f to run inside the production of the restart
+	// dump (configmanager.RegisterTransferExtension); nil unregisters. Optional.
+	SetTransferHook func(f func())
+	Do              func(e Endpoint) (status int, body []byte, panicked string)
 }
 
 // Names of the objects a case has installed.
@@ -176,11 +179,12 @@ func (e *Engine) stat(pos string) *PosStat {
 }
 
 type run struct {
-	e     *Engine
-	set   PosSet
-	g     *Registry
-	held  []interface{}
-	names Names
+	e       *Engine
+	set     PosSet
+	g       *Registry
+	held    []interface{}
+	names   Names
+	heldCap int
 }
 
 func (r *run) fillRoot(root string, v reflect.Value, tag string) {
@@ -348,48 +352,64 @@ func (r *run) apply(op string, i int) {
 	}
 }
 
-type snap struct {
-	restartRaw   string
-	restartCanon string
-	restartErr   string
-	held         []string
-	live         []string
+type memSnap struct {
+	held []byte
+	live []byte
 }
 
-func (r *run) snapshot() snap {
-	var s snap
+// heldBytes renders the values handed to the setters: they share slices, maps
+// and pointers with the effective configuration.
+func (r *run) heldBytes() []byte {
+	out := make([]byte, 0, r.heldCap)
+	for i, h := range r.held {
+		out = append(out, fmt.Sprintf("held[%d]\n", i)...)
+		out = append(out, DeepBytes(h)...)
+	}
+	if len(out) > r.heldCap {
+		r.heldCap = len(out) + 1024
+	}
+	return out
+}
+
+func (r *run) liveBytes() []byte {
+	if r.e.Env.Live == nil {
+		return nil
+	}
+	return r.e.Env.Live()
+}
+
+func (r *run) memory() memSnap { return memSnap{held: r.heldBytes(), live: r.liveBytes()} }
+
+type restartSnap struct {
+	raw   string
+	canon string
+	err   string
+}
+
+func (r *run) restart() restartSnap {
+	var s restartSnap
 	b, err := r.e.Env.Restart()
 	if err != nil {
-		s.restartErr = err.Error()
+		s.err = err.Error()
 	}
-	s.restartRaw = string(b)
+	s.raw = string(b)
 	if c, err := CanonJSON(b); err == nil {
-		s.restartCanon = c
+		s.canon = c
 	} else {
-		s.restartErr += " canon: " + err.Error()
-	}
-	for i, h := range r.held {
-		for _, l := range Deep(h) {
-			s.held = append(s.held, fmt.Sprintf("held[%d]%s", i, l))
-		}
-	}
-	if r.e.Env.Live != nil {
-		s.live = r.e.Env.Live()
+		s.err += " canon: " + err.Error()
 	}
 	return s
 }
 
-// RunCase builds the configuration of c on a reset configmanager, applies the
-// history and checks every endpoint form.
-func (e *Engine) RunCase(p *vreport.Part, c Case) {
+// build installs the configuration of c on a reset configmanager.
+func (e *Engine) build(p *vreport.Part, c Case) *run {
 	set, ok := e.Sets[c.Set]
 	if !ok {
 		vreport.HarnessError(p.Prop, p.Name, "unknown position set "+c.Set)
-		return
+		return nil
 	}
 	r := &run{e: e, set: set, g: NewRegistry()}
 	e.Env.Reset()
-	defer e.Env.Reset()
 	// base configuration: every object kind exists, so that updates and
 	// removals of the history have something to act on
 	r.mosn("M0")
@@ -407,8 +427,103 @@ func (e *Engine) RunCase(p *vreport.Part, c Case) {
 		e.stat(l.Pos).Leaves++
 		e.stat(l.Pos).Compared = l.Compared
 	}
-	p.Distinct(c.Set + "|" + strings.Join(c.History, ","))
+	return r
+}
 
+type reqCase struct {
+	Case
+	Endpoint Endpoint `json:"endpoint"`
+	Phase    string   `json:"phase,omitempty"`
+}
+
+// checkBody applies the body oracle: (1) no private-key marker anywhere,
+// (2) every TLS context the body shows carries the fixed placeholder.
+func (r *run) checkBody(p *vreport.Part, vc reqCase, status int, body []byte) {
+	e, ep := r.e, vc.Endpoint
+	form := formClass(ep.Form)
+	text := string(body)
+	for _, id := range Markers(text, "KEY-") {
+		l := r.g.ByID(id)
+		switch {
+		case l == nil:
+			p.Violation("private-key-leak position=unknown endpoint="+form,
+				fmt.Sprintf("response body (status %d) contains private key marker KEY-(%s) that no position of this case owns", status, id), vc)
+		case l.Compared:
+			e.stat(l.Pos).Leaks++
+			p.Violation("private-key-leak position="+l.Pos+" endpoint="+form,
+				fmt.Sprintf("response body (status %d) of %q contains the private key %s configured at position %s; expected the placeholder. body excerpt: %s",
+					status, ep.Form, l.Key, l.Pos, excerpt(text, l.Key)), vc)
+		default:
+			e.Untyped[l.Pos+" -> verbatim"]++
+		}
+	}
+	if status != 200 {
+		return
+	}
+	var tree interface{}
+	if err := json.Unmarshal(body, &tree); err != nil {
+		return
+	}
+	var objs []TLSObject
+	FindTLSObjects(tree, &objs)
+	for _, o := range objs {
+		l := r.g.ByID(o.ID)
+		if l == nil {
+			continue
+		}
+		ks, isStr := o.Key.(string)
+		if !l.Compared {
+			if isStr && !strings.Contains(ks, "KEY-(") {
+				e.Untyped[l.Pos+" -> redacted"]++
+			}
+			continue
+		}
+		e.stat(l.Pos).Found++
+		switch {
+		case isStr && strings.Contains(ks, "KEY-("):
+			// already reported as a leak
+		case !o.HasKey || !isStr || ks == "":
+			p.Violation("placeholder-missing position="+l.Pos+" endpoint="+form,
+				fmt.Sprintf("the TLS context at %s is shown by %q but its %s is %v (present=%v): the statement requires the key to be replaced by a fixed placeholder",
+					l.Pos, ep.Form, TagPrivateKey, o.Key, o.HasKey), vc)
+		case e.Placeholder == "":
+			e.Placeholder = ks
+			e.stat(l.Pos).Placeholder++
+		case ks != e.Placeholder:
+			p.Violation("placeholder-not-fixed position="+l.Pos+" endpoint="+form,
+				fmt.Sprintf("the TLS context at %s shows %q where other positions show %q: the placeholder is not fixed", l.Pos, ks, e.Placeholder), vc)
+		default:
+			e.stat(l.Pos).Placeholder++
+		}
+	}
+}
+
+// lostKey names the first (by position key) live leaf whose key is no longer in text.
+func (r *run) lostKey(live map[string]bool, text string) string {
+	lost := ""
+	for id := range live {
+		if !strings.Contains(text, "KEY-("+id+")") {
+			if l := r.g.ByID(id); l != nil && (lost == "" || l.Pos < lost) {
+				lost = l.Pos
+			}
+		}
+	}
+	return lost
+}
+
+// RunCase builds the configuration of c on a reset configmanager, applies the
+// history and checks every endpoint form, in two phases: first while no
+// restart dump has ever been produced, then with a restart dump taken before
+// and after every request (producing a restart dump leaves copies of the
+// listeners and routers inside the effective MOSN config, so the two phases
+// dump different states).
+func (e *Engine) RunCase(p *vreport.Part, c Case) {
+	r := e.build(p, c)
+	if r == nil {
+		return
+	}
+	defer e.Env.Reset()
+	p.Distinct(c.Set + "|" + strings.Join(c.History, ","))
 	eps := e.Env.Endpoints(r.names)
 	// the first form is asked again at the end: after-effects of earlier dumps
 	if len(eps) > 0 {
@@ -416,122 +531,146 @@ func (e *Engine) RunCase(p *vreport.Part, c Case) {
 		again.Form += " (again, after all other forms)"
 		eps = append(eps, again)
 	}
-	p.EvalN(len(eps) - 1) // Run already counted one
-	before := r.snapshot()
-	if before.restartErr != "" {
-		vreport.HarnessError(p.Prop, p.Name, "restart dump unusable before any request: "+before.restartErr)
+	p.EvalN(2*len(eps) - 1) // Run already counted one
+	live := map[string]bool{}
+	for _, phase := range []string{"no restart dump produced yet", "restart dump before and after every request"} {
+		withRestart := phase != "no restart dump produced yet"
+		var rBefore restartSnap
+		if withRestart {
+			rBefore = r.restart()
+			if rBefore.err != "" {
+				vreport.HarnessError(p.Prop, p.Name, "restart dump unusable before any request: "+rBefore.err)
+				return
+			}
+			for _, id := range Markers(rBefore.raw, "KEY-") {
+				live[id] = true
+			}
+			for _, l := range r.g.Leaves {
+				if live[l.ID] {
+					e.stat(l.Pos).Live++
+				} else {
+					e.stat(l.Pos).Shadowed++
+				}
+			}
+		}
+		m1 := r.memory()
+		for _, ep := range eps {
+			form := formClass(ep.Form)
+			vc := reqCase{c, ep, phase}
+			// the snapshot after the previous request is the one before this one; only the
+			// effective configuration is re-read when a restart dump was produced in between
+			m0 := m1
+			if withRestart {
+				m0.live = r.liveBytes()
+			}
+			status, body, panicked := e.Env.Do(ep)
+			m1 = r.memory()
+			e.Statuses[fmt.Sprintf("%s -> %d", form, status)]++
+			p.Outcome(fmt.Sprintf("%s|%v|%d|%d", ep.Form, withRestart, status, len(Markers(string(body), "POS-"))))
+			if panicked != "" {
+				// the statement does not speak about panics: a harness problem, never a violation
+				vreport.HarnessError(p.Prop, p.Name, fmt.Sprintf("dump handler panicked on %s: %s", ep.Form, panicked))
+			}
+			r.checkBody(p, vc, status, body)
+			// producing the dump altered neither the live nor the persisted configuration
+			if a, b, d := FirstDiffBytes(m0.held, m1.held); d {
+				p.Violation("dump-alters-config what=live-storage field="+KeyPath(a)+" endpoint="+form,
+					fmt.Sprintf("configuration storage shared with the live objects (the values handed to the setters) changed during %q (%s): before `%s`, after `%s` (field %s)", ep.Form, phase, a, b, TypePath(a)), vc)
+			}
+			if a, b, d := FirstDiffBytes(m0.live, m1.live); d {
+				p.Violation("dump-alters-config what=effective-config field="+KeyPath(a)+" endpoint="+form,
+					fmt.Sprintf("the effective configuration changed during %q (%s): before `%s`, after `%s` (field %s)", ep.Form, phase, a, b, TypePath(a)), vc)
+			}
+			if withRestart {
+				rAfter := r.restart()
+				if rAfter.err != "" || rAfter.canon != rBefore.canon {
+					if lost := r.lostKey(live, rAfter.raw); lost != "" {
+						p.Violation("dump-alters-config what=restart-dump-lost-key position="+lost+" endpoint="+form,
+							fmt.Sprintf("after %q the restart dump (InheritMosnconfig) no longer contains the real private key of position %s", ep.Form, lost), vc)
+					} else {
+						p.Violation("dump-alters-config what=restart-dump endpoint="+form,
+							fmt.Sprintf("restart dump (InheritMosnconfig, canonical JSON) differs before/after %q; error=%q", ep.Form, rAfter.err), vc)
+					}
+				}
+				rBefore = rAfter
+			}
+		}
+	}
+	if p.WantSample() {
+		p.Sample(map[string]interface{}{"case": c, "leaves": len(r.g.Leaves), "live_leaves": len(live), "requests": 2 * len(eps)})
+	}
+}
+
+// RunPersistCase checks a dump request issued WHILE the persisted
+// configuration is being produced: the request is made from the transfer
+// extension hook (configmanager.RegisterTransferExtension), which
+// transferConfig calls after it assembled the MOSN config to persist and
+// before it marshals it. Both the persist path and the dump path hold only the
+// read lock of the configuration, so this is a schedule two goroutines can
+// produce; the hook makes it deterministic. The persisted document must be
+// the same as without the request.
+func (e *Engine) RunPersistCase(p *vreport.Part, c Case) {
+	if e.Env.SetTransferHook == nil {
+		return
+	}
+	r := e.build(p, c)
+	if r == nil {
+		return
+	}
+	defer e.Env.Reset()
+	defer e.Env.SetTransferHook(nil)
+	p.Distinct(c.Set + "|" + strings.Join(c.History, ","))
+	eps := e.Env.Endpoints(r.names)
+	p.EvalN(len(eps) - 1)
+	base := r.restart()
+	if base.err != "" {
+		vreport.HarnessError(p.Prop, p.Name, "restart dump unusable: "+base.err)
 		return
 	}
 	live := map[string]bool{}
-	for _, id := range Markers(before.restartRaw, "KEY-") {
+	for _, id := range Markers(base.raw, "KEY-") {
 		live[id] = true
-	}
-	for _, l := range r.g.Leaves {
-		if live[l.ID] {
-			e.stat(l.Pos).Live++
-		} else {
-			e.stat(l.Pos).Shadowed++
-		}
 	}
 	for _, ep := range eps {
 		form := formClass(ep.Form)
-		status, body, panicked := e.Env.Do(ep)
-		e.Statuses[fmt.Sprintf("%s -> %d", form, status)]++
-		p.Outcome(fmt.Sprintf("%s|%d|%d", ep.Form, status, len(Markers(string(body), "POS-"))))
-		vc := struct {
-			Case
-			Endpoint Endpoint `json:"endpoint"`
-		}{c, ep}
-		if panicked != "" {
-			// the statement does not speak about panics: a harness problem, never a violation
-			vreport.HarnessError(p.Prop, p.Name, fmt.Sprintf("dump handler panicked on %s: %s", ep.Form, panicked))
+		vc := reqCase{c, ep, "request issued from the transfer-extension hook, i.e. while the restart dump is being produced"}
+		calls := 0
+		var status int
+		var body []byte
+		e.Env.SetTransferHook(func() {
+			calls++
+			status, body, _ = e.Env.Do(ep)
+		})
+		m0 := r.memory()
+		got := r.restart()
+		m1 := r.memory()
+		e.Env.SetTransferHook(nil)
+		if calls != 1 {
+			vreport.HarnessError(p.Prop, p.Name, fmt.Sprintf("transfer hook called %d times", calls))
+			return
 		}
-		text := string(body)
-		// (1) no private-key marker anywhere in the body
-		for _, id := range Markers(text, "KEY-") {
-			l := r.g.ByID(id)
-			switch {
-			case l == nil:
-				p.Violation("private-key-leak position=unknown endpoint="+form,
-					fmt.Sprintf("response body (status %d) contains private key marker KEY-(%s) that no position of this case owns", status, id), vc)
-			case l.Compared:
-				e.stat(l.Pos).Leaks++
-				p.Violation("private-key-leak position="+l.Pos+" endpoint="+form,
-					fmt.Sprintf("response body (status %d) of %q contains the private key %s configured at position %s; expected the placeholder. body excerpt: %s",
-						status, ep.Form, l.Key, l.Pos, excerpt(text, l.Key)), vc)
-			default:
-				e.Untyped[l.Pos+" -> verbatim"]++
-			}
-		}
-		// (2) every position that shows in the body shows the fixed placeholder
-		if status == 200 {
-			var tree interface{}
-			if err := json.Unmarshal(body, &tree); err == nil {
-				var objs []TLSObject
-				FindTLSObjects(tree, &objs)
-				for _, o := range objs {
-					l := r.g.ByID(o.ID)
-					if l == nil {
-						continue
-					}
-					ks, isStr := o.Key.(string)
-					if !l.Compared {
-						if isStr && !strings.Contains(ks, "KEY-(") {
-							e.Untyped[l.Pos+" -> redacted"]++
-						}
-						continue
-					}
-					e.stat(l.Pos).Found++
-					switch {
-					case isStr && strings.Contains(ks, "KEY-("):
-						// already reported by (1)
-					case !o.HasKey || !isStr || ks == "":
-						p.Violation("placeholder-missing position="+l.Pos+" endpoint="+form,
-							fmt.Sprintf("the TLS context at %s is shown by %q but its %s is %v (present=%v): the statement requires the key to be replaced by a fixed placeholder",
-								l.Pos, ep.Form, TagPrivateKey, o.Key, o.HasKey), vc)
-					case e.Placeholder == "":
-						e.Placeholder = ks
-						e.stat(l.Pos).Placeholder++
-					case ks != e.Placeholder:
-						p.Violation("placeholder-not-fixed position="+l.Pos+" endpoint="+form,
-							fmt.Sprintf("the TLS context at %s shows %q where other positions show %q: the placeholder is not fixed", l.Pos, ks, e.Placeholder), vc)
-					default:
-						e.stat(l.Pos).Placeholder++
-					}
-				}
-			}
-		}
-		// (3) producing the dump altered neither the live nor the persisted configuration
-		after := r.snapshot()
-		if after.restartErr != "" || after.restartCanon != before.restartCanon {
-			lost := ""
-			for id := range live {
-				if !strings.Contains(after.restartRaw, "KEY-("+id+")") {
-					if l := r.g.ByID(id); l != nil && (lost == "" || l.Pos < lost) {
-						lost = l.Pos
-					}
-				}
-			}
-			if lost != "" {
-				p.Violation("dump-alters-config what=restart-dump-lost-key position="+lost+" endpoint="+form,
-					fmt.Sprintf("after %q the restart dump (InheritMosnconfig) no longer contains the real private key of position %s", ep.Form, lost), vc)
+		p.Outcome(fmt.Sprintf("%s|%d|%v", ep.Form, status, got.canon == base.canon))
+		r.checkBody(p, vc, status, body)
+		if got.err != "" || got.canon != base.canon {
+			if lost := r.lostKey(live, got.raw); lost != "" {
+				p.Violation("dump-alters-config what=persisted-config-lost-key-when-dumped-during-persist root="+strings.SplitN(lost, ":", 2)[0]+" endpoint="+form,
+					fmt.Sprintf("a %q request made while the restart dump was being produced: the produced document no longer contains the real private key of position %s (excerpt: %s)", ep.Form, lost, excerpt(got.raw, e.Placeholder)), vc)
 			} else {
-				p.Violation("dump-alters-config what=restart-dump endpoint="+form,
-					fmt.Sprintf("restart dump (InheritMosnconfig, canonical JSON) differs before/after %q; error=%q", ep.Form, after.restartErr), vc)
+				p.Violation("dump-alters-config what=persisted-config-when-dumped-during-persist endpoint="+form,
+					fmt.Sprintf("a %q request made while the restart dump was being produced changed the produced document; error=%q", ep.Form, got.err), vc)
 			}
 		}
-		if a, b, d := FirstDiff(before.held, after.held); d {
-			p.Violation("dump-alters-config what=live-storage field="+TypePath(a)+" endpoint="+form,
-				fmt.Sprintf("configuration storage shared with the live objects (the values handed to the setters) changed during %q: before `%s`, after `%s`", ep.Form, a, b), vc)
+		if a, b, d := FirstDiffBytes(m0.held, m1.held); d {
+			p.Violation("dump-alters-config what=live-storage field="+KeyPath(a)+" endpoint="+form,
+				fmt.Sprintf("configuration storage shared with the live objects changed during %q issued while persisting: before `%s`, after `%s`", ep.Form, a, b), vc)
 		}
-		if a, b, d := FirstDiff(before.live, after.live); d {
-			p.Violation("dump-alters-config what=effective-config field="+TypePath(a)+" endpoint="+form,
-				fmt.Sprintf("the effective configuration changed during %q: before `%s`, after `%s`", ep.Form, a, b), vc)
+		// the restart dump produced afterwards, without any request, is the reference again
+		if again := r.restart(); again.canon != base.canon {
+			if lost := r.lostKey(live, again.raw); lost != "" {
+				p.Violation("dump-alters-config what=restart-dump-lost-key position="+lost+" endpoint="+form,
+					fmt.Sprintf("after a %q request made while persisting, the next restart dump no longer contains the real private key of position %s", ep.Form, lost), vc)
+			}
 		}
-		before = after
-	}
-	if p.WantSample() {
-		p.Sample(map[string]interface{}{"case": c, "leaves": len(r.g.Leaves), "live_leaves": len(live), "requests": len(eps)})
 	}
 }
 
